@@ -117,6 +117,16 @@ CLAIMS = {
         "engine flow analysis and guard formulas",
         "DESIGN.md section 4 C10",
     ),
+    "C16": (
+        "Decides the builder guards structurally, per call: every `str | list[str]` parameter is normalised before anything iterates it; "
+        "LayerRule.are_named raises exactly when a further or batched layer is given on the subject side (truth table over side / subject "
+        "present / argument kind); pending-layer, duplicate-name, exactly-one-pending and duplicate-module guards dominate the state writes, the "
+        "duplicate check compares materialised collections over all stored modules, and the pending marker agrees with the type of stored "
+        "values; accepted definitions are stored whole, in order, under the pending layer and read back unchanged. Does NOT explore sequences.",
+        "use-classification of union-typed parameters + guard truth tables + CFG dominance of guards over state writes",
+        "engine CFG / guard formulas / resolver",
+        "DESIGN.md section 4 C16",
+    ),
 }
 
 NOT_BUILT_REASON = "static check not built yet in this session (planned rules: DESIGN.md section 4); no claim is made"
